@@ -120,7 +120,7 @@ class Rec:
 
     def result(self):
         return {
-            "v": self.viol[:6],
+            "v": self.viol[:2],  # the first two failing (route, clause) of the chunk; one defect fails many routes
             "n": self.n,
             "keys": self.keys,
             "nt": bool(self.keys),
